@@ -239,65 +239,99 @@ theorem classify_cases (c : Char) :
   have h7' : c ∉ unsupUnq := by simpa using h7
   simp [h1, h2, h3, h4, h5, h6, h7', h8, h9, h10]
 
-/-- guard for the characters after the first one -/
-def bsInner : Str → Bool
-  | [] => true
-  | c :: cs => !isAsciiControl c && !(c == ':' && cs.head? == some '~') && bsInner cs
-
-theorem head_bs_ne_quote (cs : Str) : (cs.flatMap bsChar).head? ≠ some '\'' := by
-  cases cs with
-  | nil => simp
-  | cons c cs =>
-    have hq : needsEscaping '\'' = true := by decide
-    by_cases h : needsEscaping c = true
-    · simp [bsChar, h]
-    · by_cases hc : c = '\''
-      · subst hc; exact absurd hq h
-      · simp [bsChar, h, hc]
-
-theorem head_bs_ne_tilde (cs : Str) (h : cs.head? ≠ some '~') : (cs.flatMap bsChar).head? ≠ some '~' := by
-  cases cs with
-  | nil => simp
-  | cons c cs =>
-    by_cases hn : needsEscaping c = true
-    · simp [bsChar, hn]
-    · simp at h
-      simp [bsChar, hn, h]
-
 theorem nl_not_escaped : needsEscaping '\n' = false := by decide
-theorem nl_control : isAsciiControl '\n' = true := by decide
+theorem quote_escaped : needsEscaping '\'' = true := by decide
 
-/-- one character of backslash-escaped text, read in the unquoted state (`ok`: not a `~`/`#` at the
-start of a word) -/
-theorem read_bsChar (st ws : Bool) (c : Char) (cs : Str)
-    (hctl : isAsciiControl c = false) (hcol : ¬(c = ':' ∧ cs.head? = some '~'))
-    (hh : c = '#' → st = true) (ht : c = '~' → ws = false) :
-    rd b (.un st ws) (bsChar c ++ cs.flatMap bsChar) = (rd b (.un true false) (cs.flatMap bsChar)).push c := by
-  by_cases hn : needsEscaping c = true
-  · have hnl : c ≠ '\n' := by intro h; subst h; rw [nl_not_escaped] at hn; exact absurd hn (by decide)
-    simp only [bsChar, hn, if_true, List.cons_append, List.nil_append]
-    exact rd_un_bs' b st ws c _ hnl (head_bs_ne_quote cs)
-  · have hn' : needsEscaping c = false := by simpa using hn
-    simp only [bsChar, hn', Bool.false_eq_true, if_false, List.cons_append, List.nil_append]
-    rcases classify_cases c with h | h | h | h | h
-    · have := special_covered c h
-      simp [hn', hctl] at this
-    · subst h; rw [hh rfl]; exact rd_un_hash b ws _
-    · subst h; rw [ht rfl]; exact rd_un_tilde b st _
-    · subst h
-      exact rd_un_colon b st ws _ (head_bs_ne_tilde cs (by simpa using hcol))
-    · exact rd_un_lit b st ws c _ h
+theorem head_bsGo_ne_quote (prev : Option Char) (cs : Str) : (bsGo prev cs).head? ≠ some '\'' := by
+  cases cs with
+  | nil => simp [bsGo]
+  | cons c cs =>
+    by_cases h : (needsEscaping c || isSpecialByPos prev c) = true
+    · simp [bsGo, h]
+    · have h' : (needsEscaping c || isSpecialByPos prev c) = false := by simpa using h
+      have hn : needsEscaping c = false := by
+        cases hc : needsEscaping c <;> simp [hc] at h' ⊢
+      have : c ≠ '\'' := by intro e; subst e; rw [quote_escaped] at hn; exact absurd hn (by decide)
+      simp [bsGo, h', this]
 
-theorem read_bsInner (s : Str) (h : bsInner s = true) :
-    rd b (.un true false) (s.flatMap bsChar) = .ok [] (some s) [] := by
-  induction s with
-  | nil => simp [rd_un_nil]
-  | cons c cs ih =>
-    simp only [bsInner, Bool.and_eq_true, Bool.not_eq_true', Bool.and_eq_false_imp, beq_iff_eq] at h
-    obtain ⟨⟨h1, h2⟩, h3⟩ := h
-    have hcol : ¬(c = ':' ∧ cs.head? = some '~') := by
-      intro ⟨a, b'⟩; have := h2 a; simp [b'] at this
-    rw [List.flatMap_cons, read_bsChar b true false c cs h1 hcol (fun _ => rfl) (fun _ => rfl), ih h3]
+theorem head_bsGo_colon_ne_tilde (cs : Str) : (bsGo (some ':') cs).head? ≠ some '~' := by
+  cases cs with
+  | nil => simp [bsGo]
+  | cons c cs =>
+    by_cases hc : c = '~'
+    · subst hc
+      have : isSpecialByPos (some ':') '~' = true := by decide
+      simp [bsGo, this]
+    · by_cases h : (needsEscaping c || isSpecialByPos (some ':') c) = true
+      · simp [bsGo, h]
+      · have h' : (needsEscaping c || isSpecialByPos (some ':') c) = false := by simpa using h
+        simp [bsGo, h', hc]
+
+theorem read_bs_step (prev : Option Char) (st ws : Bool) (c : Char) (rest : Str)
+    (hctl : isAsciiControl c = false) (hst : prev ≠ none → st = true ∧ ws = false)
+    (hq : rest.head? ≠ some '\'') (hcol : c = ':' → rest.head? ≠ some '~') :
+    rd b (.un st ws) ((if (needsEscaping c || isSpecialByPos prev c) = true then ['\\', c] else [c]) ++ rest) =
+      (rd b (.un true false) rest).push c := by
+  have hnl : c ≠ '\n' := by
+    intro e; subst e; exact absurd hctl (by decide)
+  by_cases h : (needsEscaping c || isSpecialByPos prev c) = true
+  · simp only [h, if_true, List.cons_append, List.nil_append]
+    exact rd_un_bs' b st ws c rest hnl hq
+  · have h' : (needsEscaping c || isSpecialByPos prev c) = false := by simpa using h
+    have hn : needsEscaping c = false := by
+      cases hc : needsEscaping c <;> simp [hc] at h' ⊢
+    have hp : isSpecialByPos prev c = false := by
+      cases hc : isSpecialByPos prev c <;> simp [hc, hn] at h' ⊢
+    simp only [h', Bool.false_eq_true, if_false, List.cons_append, List.nil_append]
+    rcases classify_cases c with hcase | hcase | hcase | hcase | hcase
+    · have := special_covered c hcase
+      simp [hn, hctl] at this
+    · subst hcase
+      have hne : prev ≠ none := by
+        intro e; subst e; exact absurd hp (by decide)
+      rw [(hst hne).1]; exact rd_un_hash b ws _
+    · subst hcase
+      have hne : prev ≠ none := by
+        intro e; subst e; exact absurd hp (by decide)
+      rw [(hst hne).2]; exact rd_un_tilde b st _
+    · subst hcase
+      exact rd_un_colon b st ws _ (hcol rfl)
+    · exact rd_un_lit b st ws c _ hcase
+
+/-- backslash-escaped text (`bsGo`), read in the unquoted state: `prev = none` is the start of the
+word (any reader state); afterwards a token is in progress -/
+theorem read_bsGo (cs : Str) :
+    ∀ (c : Char) (prev : Option Char) (st ws : Bool),
+      (c :: cs).all (fun x => !isAsciiControl x) = true →
+      (prev ≠ none → st = true ∧ ws = false) →
+      rd b (.un st ws) (bsGo prev (c :: cs)) = .ok [] (some (c :: cs)) [] := by
+  induction cs with
+  | nil =>
+    intro c prev st ws hctl hst
+    have hc : isAsciiControl c = false := by simpa using hctl
+    have := read_bs_step b prev st ws c [] hc hst (by simp) (by simp)
+    simp only [List.append_nil] at this
+    rw [bsGo, bsGo, List.append_nil, this, rd_un_nil]
     simp [Res.push]
+  | cons d ds ih =>
+    intro c prev st ws hctl hst
+    simp only [List.all_cons, Bool.and_eq_true, Bool.not_eq_true'] at hctl
+    have hrest := ih d (some c) true false (by simpa using hctl.2) (fun _ => ⟨rfl, rfl⟩)
+    have hcol : c = ':' → (bsGo (some c) (d :: ds)).head? ≠ some '~' := by
+      intro e; subst e; exact head_bsGo_colon_ne_tilde _
+    have := read_bs_step b prev st ws c (bsGo (some c) (d :: ds)) hctl.1 hst (head_bsGo_ne_quote _ _) hcol
+    rw [bsGo]
+    rw [this, hrest]
+    simp [Res.push]
+
+/-- text that needs no quoting is what `bsGo` prints -/
+theorem bsGo_id (s : Str) : ∀ prev, s.any needsEscaping = false → hasPosSpecial prev s = false → bsGo prev s = s := by
+  induction s with
+  | nil => intro _ _ _; rfl
+  | cons c cs ih =>
+    intro prev h1 h2
+    simp only [List.any_cons, Bool.or_eq_false_iff] at h1
+    simp only [hasPosSpecial, Bool.or_eq_false_iff] at h2
+    simp [bsGo, h1.1, h2.1, ih (some c) h1.2 h2.2]
 
 end BrushVerif.Quote
